@@ -645,6 +645,84 @@ def finalise_under_lock(flow, path):
     return seen > 0
 
 
+# ---- names of the fields of the private record classes of snapshot (a rename of one of them changes nothing)
+VOCAB_DEFAULT = {'f_start': 'stream_start', 'f_end': 'stream_end', 'f_path': 'path', 'f_digest': 'digest', 'f_meta': 'metadata',
+                 's_files': 'files', 's_current': 'current_file',
+                 'c_start': 'stream_start', 'c_end': 'stream_end', 'c_index': 'index', 'c_counter': 'counter'}
+VOCAB = dict(VOCAB_DEFAULT)
+
+
+def _ctor_kwargs(flow, call):
+    """keyword view of a constructor call of a module class: positional arguments named after the class's annotated fields"""
+    f = call[2]
+    kws = dict(call[4])
+    if call[3] and f[0] == 'class':
+        for st in flow.mod.tree.body:
+            if isinstance(st, ast.ClassDef) and st.name == f[1]:
+                fields = [x.target.id for x in st.body if isinstance(x, ast.AnnAssign) and isinstance(x.target, ast.Name)]
+                for nm, a in zip(fields, call[3]):
+                    kws.setdefault(nm, a)
+    return kws
+
+
+def infer_vocabulary(flow, path):
+    """which attribute plays which role, read from how the records are built and updated:
+    the per-file record is created in the generator that streams the files with two equal offsets (start, end) and str(path);
+    `end` is the one advanced by len(piece) in the read loop; the state appends (record.start, record) to its list of files and
+    keeps the record as the current one; the digest comes from <hasher>.digest(), the other attribute stored is the metadata.
+    The per-chunk record is built with end = start + len(piece), a counter that the state increments, an index into the table."""
+    v = dict(VOCAB_DEFAULT)
+    try:
+        for node, paths in flow.units_below(path, every=True):
+            for q in paths:
+                evs = [e for e, _c, _i, _l in walk(q.events)]
+                for e in evs:
+                    if not (e.kind == 'call' and e.a[0] == 'call' and e.a[2][0] == 'class' and e.c != 'inlined'):
+                        continue
+                    kws = _ctor_kwargs(flow, e.a)
+                    if F.is_generator(node):
+                        same = [(a, b) for a in kws for b in kws if a < b and F.strip(kws[a]) == F.strip(kws[b]) and kws[a][0] == 'attr']
+                        strs = [a for a in kws if kws[a][0] == 'call' and kws[a][2] == ('name', 'str')]
+                        if len(same) != 1 or len(strs) != 1 or len(kws) != 3:
+                            continue
+                        rec = e.a
+                        a, b = same[0]
+                        augs = {F.strip(x.a)[2] for x in evs if x.kind == 'aug' and x.a[0] == 'attr' and F.same(x.a[1], rec) and x.b == '+'
+                                and x.c[0] == 'call' and x.c[2] == ('name', 'len')}
+                        if augs == {a}:
+                            a, b = b, a
+                        if augs != {b}:
+                            continue
+                        v['f_start'], v['f_end'], v['f_path'] = a, b, strs[0]
+                        for x in evs:
+                            if x.kind == 'store' and x.a[0] == 'attr' and F.same(x.b, rec):
+                                v['s_current'] = x.a[2]
+                            if x.kind == 'call' and x.a[0] == 'call' and x.a[2][0] == 'attr' and x.a[2][2] == 'append' and x.a[2][1][0] == 'attr' \
+                                    and len(x.a[3]) == 1 and x.a[3][0][0] == 'tuple' and len(x.a[3][0][1]) == 2 and F.same(x.a[3][0][1][1], rec):
+                                v['s_files'] = x.a[2][1][2]
+                            if x.kind == 'store' and x.a[0] == 'attr' and F.same(x.a[1], rec):
+                                if x.b[0] == 'call' and x.b[2][0] == 'attr' and x.b[2][2] in ('digest', 'hexdigest', 'finalize'):
+                                    v['f_digest'] = x.a[2]
+                                else:
+                                    v['f_meta'] = x.a[2]
+                    else:
+                        ends = [a for a in kws if kws[a][0] == 'bin' and kws[a][1] == '+' and kws[a][3][0] == 'call' and kws[a][3][2] == ('name', 'len')
+                                and any(F.strip(kws[b]) == F.strip(kws[a][2]) for b in kws if b != a)]
+                        if len(ends) != 1:
+                            continue
+                        v['c_end'] = ends[0]
+                        v['c_start'] = [b for b in kws if b != ends[0] and F.strip(kws[b]) == F.strip(kws[ends[0]][2])][0]
+                        for a, val in kws.items():
+                            sv = F.strip(val)
+                            if sv[0] == 'attr' and any(x.kind == 'aug' and F.strip(x.a) == sv and x.b == '+' and F.is_const(x.c, 1) for x in evs):
+                                v['c_counter'] = a
+                            if (sv[0] == 'sub' and sv[1][0] == 'dict') or (sv[0] == 'call' and sv[2] == ('name', 'len') and len(sv[3]) == 1 and sv[3][0][0] == 'dict'):
+                                v['c_index'] = a
+    except (F.Unsupported, KeyError, IndexError, TypeError):
+        return dict(VOCAB_DEFAULT)
+    return v
+
+
 # ---- snapshot: files without any chunk
 def membership(q, k, d):
     """True / False / None: this path knows that key k is / is not in dict d (membership test, d.get(k) is None,
@@ -671,13 +749,13 @@ def _chunkless_record(k, v, holder):
     """k == <file>.path and v == {'path': k, 'chunks': [], 'digest': <file>.digest, 'metadata': <file>.metadata} with <file>
     derived from `holder` (the loop element)"""
     k, v = F.strip(k), F.strip(v)
-    if not (k[0] == 'attr' and k[2] == 'path' and F.mentions(k[1], holder)):
+    if not (k[0] == 'attr' and k[2] == VOCAB['f_path'] and F.mentions(k[1], holder)):
         return False
     fs = k[1]
     items = dict_items(v)
     return items is not None and set(items) == {'path', 'chunks', 'digest', 'metadata'} and items['path'] == k \
-        and items['chunks'] == ('list', 0, ()) and items['digest'] == ('attr', fs, 'digest') \
-        and items['metadata'] == ('attr', fs, 'metadata')
+        and items['chunks'] == ('list', 0, ()) and items['digest'] == ('attr', fs, VOCAB['f_digest']) \
+        and items['metadata'] == ('attr', fs, VOCAB['f_meta'])
 
 
 def _listed_afterwards(later, uid):
@@ -701,7 +779,7 @@ def records_chunkless(path):
             d, comp = e.a[2][1], e.a[3][0]
             (it, elem, conds), (k, v) = comp[4][0], comp[3]
             src = F.strip(unwrap_iter(it))
-            if src[0] == 'attr' and src[2] == 'files' and F.sym_uid(d) is not None and _chunkless_record(k, v, elem) \
+            if src[0] == 'attr' and src[2] == VOCAB['s_files'] and F.sym_uid(d) is not None and _chunkless_record(k, v, elem) \
                     and [F.canon_lit(c, True) for c in conds] == [(('cmp', 'in', F.strip(k), F.strip(d)), False)] \
                     and _listed_afterwards(path.events[i + 1:], F.sym_uid(d)):
                 return True
@@ -714,9 +792,9 @@ def records_chunkless(path):
             # [f for _, f in state.files if f.path not in D]: the loop sees the files themselves; the filter is checked below
             (src, celem, conds), elt = it[4][0], it[3][0]
             src = F.strip(unwrap_iter(src))
-            if src[0] == 'attr' and src[2] == 'files' and F.mentions(elt, celem):
+            if src[0] == 'attr' and src[2] == VOCAB['s_files'] and F.mentions(elt, celem):
                 it, prefilter = src, [(c, F.strip(elt)) for c in conds]
-        if not (it[0] == 'attr' and it[2] == 'files'):
+        if not (it[0] == 'attr' and it[2] == VOCAB['s_files']):
             continue
         if any(q.status not in ('run', 'continue') for q in L.paths):
             continue
@@ -752,7 +830,7 @@ def records_chunkless(path):
         if any(membership(q, key, d) is not True for q in quiet):
             continue
         # a filter in front of the loop may only drop files that already have an entry
-        if any(F.canon_lit(c, True) != (('cmp', 'in', ('attr', elt, 'path'), F.strip(d)), False) for c, elt in prefilter):
+        if any(F.canon_lit(c, True) != (('cmp', 'in', ('attr', elt, VOCAB['f_path']), F.strip(d)), False) for c, elt in prefilter):
             continue
         # the dict is what the snapshot lists afterwards
         if _listed_afterwards(path.events[i + 1:], F.sym_uid(d)):
@@ -764,7 +842,7 @@ def records_chunkless(path):
 def _pad_len(p, caps=None):
     """p == -(F.stream_end - F.stream_start) % A  (or (A - len % A) % A): returns (F, A) stripped, else None"""
     p = F.strip(p)
-    ln = ('bin', '-', ('attr', F.Cap('f'), 'stream_end'), ('attr', F.Cap('f'), 'stream_start'))
+    ln = ('bin', '-', ('attr', F.Cap('f'), VOCAB['f_end']), ('attr', F.Cap('f'), VOCAB['f_start']))
     for pat in (('bin', '%', ('un', '-', ln), F.Cap('a')),
                 ('bin', '%', ('bin', '-', F.Cap('a'), ('bin', '%', ln, F.Cap('a'))), F.Cap('a')),
                 # round the length up to a multiple, minus the length: -(-len // a) * a - len
@@ -836,7 +914,7 @@ def padding_shape(flow, path):
                             need = False       # padding < 1
                         if c[0] == 'cmp' and c[1] == 'is' and (F.is_const(c[2]) and c[2][1] is None or F.is_const(c[3]) and c[3][1] is None) and p:
                             other = c[3] if F.is_const(c[2]) else c[2]
-                            if other[0] == 'attr' and other[2] == 'current_file':
+                            if other[0] == 'attr' and other[2] == VOCAB['s_current']:
                                 need = False
                     if need is not False:
                         # iterations that do not reach the file at all (e.g. skipped entries) would also land here
@@ -1168,7 +1246,7 @@ def _chunk_done_one(node, q, bis):
     b = bis.a
     assert len(b[3]) == 2 and not b[4], 'bisect_left(files, key)'
     files, key = F.strip(b[3][0]), b[3][1]
-    assert files[0] == 'attr' and files[2] == 'files', 'bisects the list of streamed files'
+    assert files[0] == 'attr' and files[2] == VOCAB['s_files'], 'bisects the list of streamed files'
     assert key[0] == 'tuple' and len(key[1]) == 1, 'bisection key is a 1-tuple'
     sb = F.strip(b)
     # the loop walks the indices bisect-1 … 0 (or the entries themselves, reversed)
@@ -1188,11 +1266,10 @@ def _chunk_done_one(node, q, bis):
     fsym = ('item', entry, 1)
 
     def leaf(x):
-        if x[0] == 'attr' and x[2] in ('stream_start', 'stream_end'):
-            if x[1] == fsym:
-                return 'fs' if x[2] == 'stream_start' else 'fe'
-            if x[1] == C:
-                return 'cs' if x[2] == 'stream_start' else 'ce'
+        if x[0] == 'attr' and x[1] == fsym and x[2] in (VOCAB['f_start'], VOCAB['f_end']):
+            return 'fs' if x[2] == VOCAB['f_start'] else 'fe'
+        if x[0] == 'attr' and x[1] == C and x[2] in (VOCAB['c_start'], VOCAB['c_end']):
+            return 'cs' if x[2] == VOCAB['c_start'] else 'ce'
         return None
     names = {'fs': ('fs', 'nat'), 'fe': ('fe', 'nat'), 'cs': ('cs', 'nat'), 'ce': ('ce', 'nat')}
     got = {'bisectKey': translate(sym_src(key[1][0], leaf), names, 'nat')}
@@ -1222,7 +1299,7 @@ def _chunk_done_one(node, q, bis):
         assert len(apps) == 1, 'one reference per covered file'
         items = dict_items(F.strip(apps[0].a[3][0]))
         assert items is not None and set(items) == {'range', 'index', 'counter'}
-        assert items['index'] == ('attr', C, 'index') and items['counter'] == ('attr', C, 'counter')
+        assert items['index'] == ('attr', C, VOCAB['c_index']) and items['counter'] == ('attr', C, VOCAB['c_counter'])
         rng = items['range']
         assert rng[0] in ('list', 'tuple') and len(rng[-1]) == 2
         ps, pe = rng[-1]
@@ -1232,13 +1309,13 @@ def _chunk_done_one(node, q, bis):
         sts = [e for e in p.events if e.kind == 'store' and F.strip(e.a)[0] == 'sub' and F.strip(e.a)[2] in (('const', 'digest'), ('const', 'metadata'))]
         if sts:
             vals = {F.strip(e.a)[2][1]: F.strip(e.b) for e in sts}
-            assert vals == {'digest': ('attr', fsym, 'digest'), 'metadata': ('attr', fsym, 'metadata')}
+            assert vals == {'digest': ('attr', fsym, VOCAB['f_digest']), 'metadata': ('attr', fsym, VOCAB['f_meta'])}
             lits = [(e.a, e.b) for e in p.events if e.kind == 'cond'][1:]
             cmps = []
             seen_digest = False
             for l, pol in lits:
                 c, pp = F.canon_lit(l, pol)
-                if c[0] == 'cmp' and c[1] == 'is' and ('attr', fsym, 'digest') in (c[2], c[3]) and ('const', None) in (c[2], c[3]) and not pp:
+                if c[0] == 'cmp' and c[1] == 'is' and ('attr', fsym, VOCAB['f_digest']) in (c[2], c[3]) and ('const', None) in (c[2], c[3]) and not pp:
                     seen_digest = True
                 elif c[0] == 'cmp' and c[1] == 'in':
                     continue
@@ -1575,6 +1652,10 @@ def repository_section():
     rest_paths = attempt('restore', lambda: returns(flow.top('restore')), []) or []
     snap_reps = representatives(snap_paths)
     rest_reps = representatives(rest_paths)
+    VOCAB.clear()
+    VOCAB.update(attempt('vocabulary', lambda: infer_vocabulary(flow, snap_reps[0]) if snap_reps else dict(VOCAB_DEFAULT), dict(VOCAB_DEFAULT)) or VOCAB_DEFAULT)
+    if VOCAB != VOCAB_DEFAULT:
+        notes['vocabulary'] = 'record fields by role: ' + ', '.join(f'{k}={v}' for k, v in sorted(VOCAB.items()) if VOCAB_DEFAULT[k] != v)
 
     # --- _chunk_done
     fp('repository.snapshot._chunk_done', find_func(tree, 'Repository', 'snapshot', '_chunk_done'))
